@@ -38,8 +38,9 @@ use zksync_consensus_roles::validator::{self, v2};
 #[derive(Debug)]
 struct World {
     genesis: validator::Genesis,
-    committee: Vec<validator::SecretKey>,
-    other: Vec<validator::SecretKey>,
+    /// committees[0] is the genesis committee (static mode); committee ids of the cases index this
+    committees: Vec<Vec<validator::SecretKey>>,
+    schedules: Vec<validator::Schedule>,
 }
 
 fn schedule(keys: &[validator::SecretKey]) -> validator::Schedule {
@@ -58,48 +59,56 @@ fn schedule(keys: &[validator::SecretKey]) -> validator::Schedule {
 }
 
 impl World {
-    fn new(pool: &[validator::SecretKey], first_block: u64) -> Self {
-        let committee: Vec<_> = pool[0..3].to_vec();
-        let other: Vec<_> = pool[3..6].to_vec();
+    fn new(pool: &[validator::SecretKey], first_block: u64, dynamic: bool) -> Self {
+        let committees: Vec<Vec<_>> = pool.chunks(3).map(|c| c.to_vec()).collect();
+        let schedules: Vec<_> = committees.iter().map(|c| schedule(c)).collect();
         let genesis = validator::GenesisRaw {
             chain_id: validator::ChainId(1337),
             fork_number: validator::ForkNumber(0),
             protocol_version: validator::ProtocolVersion::CURRENT,
             first_block: validator::BlockNumber(first_block),
-            validators_schedule: Some(schedule(&committee)),
+            validators_schedule: if dynamic { None } else { Some(schedules[0].clone()) },
         }
         .with_hash();
         Self {
             genesis,
-            committee,
-            other,
+            committees,
+            schedules,
         }
     }
 
-    fn dummy_qc(&self, number: u64) -> v2::CommitQC {
+    fn committee_id(&self, s: &validator::Schedule) -> i64 {
+        self.schedules
+            .iter()
+            .position(|x| x == s)
+            .map(|i| i as i64)
+            .unwrap_or(-1)
+    }
+
+    fn dummy_qc(&self, number: u64, epoch: u64) -> v2::CommitQC {
         let payload = validator::Payload(format!("side-{number}").into_bytes());
         v2::CommitQC::new(
             v2::ReplicaCommit {
                 view: v2::View {
                     genesis: self.genesis.hash(),
                     number: validator::ViewNumber(number),
-                    epoch: validator::EpochNumber(0),
+                    epoch: validator::EpochNumber(epoch),
                 },
                 proposal: v2::BlockHeader {
                     number: validator::BlockNumber(number),
                     payload: payload.hash(),
                 },
             },
-            self.genesis.validators_schedule.as_ref().unwrap(),
+            &self.schedules[0],
         )
     }
 
     /// `Last` describing a durable head at `number` (never verified by the manager).
-    fn last(&self, number: u64) -> Last {
+    fn last(&self, number: u64, epoch: u64) -> Last {
         if number < self.genesis.first_block.0 {
             Last::PreGenesis(validator::BlockNumber(number))
         } else {
-            Last::FinalV2(self.dummy_qc(number))
+            Last::FinalV2(self.dummy_qc(number, epoch))
         }
     }
 
@@ -109,7 +118,7 @@ impl World {
             last: if v[1].is_null() {
                 None
             } else {
-                Some(self.last(u64_of(&v[1])))
+                Some(self.last(u64_of(&v[1]), v.get(2).map(u64_of).unwrap_or(0)))
             },
         }
     }
@@ -127,7 +136,7 @@ impl World {
         } else {
             v2::FinalBlock {
                 payload,
-                justification: self.dummy_qc(number),
+                justification: self.dummy_qc(number, 0),
             }
             .into()
         }
@@ -175,11 +184,7 @@ impl World {
         } else {
             msg.clone()
         };
-        let keys: &[validator::SecretKey] = if corrupt == "committee" {
-            &self.other
-        } else {
-            &self.committee
-        };
+        let keys: &[validator::SecretKey] = &self.committees[signer_of(spec)];
         let nsign = if corrupt == "few" { 2 } else { 3 };
         let nbits = if corrupt == "signers_len" { 4 } else { 3 };
         let mut signers = v2::Signers::new(nbits);
@@ -205,14 +210,29 @@ impl World {
     }
 }
 
+/// Committee whose members sign the certificate ("committee" corruption = committee 1).
+fn signer_of(spec: &Value) -> usize {
+    match spec.get("signer").and_then(|v| v.as_u64()) {
+        Some(i) => i as usize,
+        None => {
+            if spec["corrupt"].as_str() == Some("committee") {
+                1
+            } else {
+                0
+            }
+        }
+    }
+}
+
 fn spec_tag(spec: &Value) -> String {
     format!(
-        "b-{}-{}-{}-{}-{}",
+        "b-{}-{}-{}-{}-{}-{}",
         spec["kind"].as_str().unwrap(),
         u64_of(&spec["number"]),
         u64_of(&spec["variant"]),
         u64_of(&spec["epoch"]),
-        spec["corrupt"].as_str().unwrap()
+        spec["corrupt"].as_str().unwrap(),
+        signer_of(spec)
     )
 }
 
@@ -241,6 +261,14 @@ struct Inner {
     permits: Mutex<i64>,
     notify: tokio::sync::Notify,
     get_calls: AtomicU64,
+    /// scripted answers of get_validator_schedule / get_pending_validator_schedule:
+    /// (committee id, activation block)
+    vs: Mutex<(usize, u64)>,
+    pending: Mutex<Option<(usize, u64)>>,
+    /// calls of the two: (1 | 2, number argument)
+    sched_calls: Mutex<Vec<(u8, u64)>>,
+    /// the runner's clock: fetch_schedule_interval (1 s) elapses only on "tick" ops
+    clock: ctx::ManualClock,
 }
 
 #[derive(Debug, Clone)]
@@ -254,19 +282,27 @@ impl EngineInterface for Eng {
     async fn get_validator_schedule(
         &self,
         _ctx: &ctx::Ctx,
-        _number: validator::BlockNumber,
+        number: validator::BlockNumber,
     ) -> ctx::Result<(validator::Schedule, validator::BlockNumber)> {
+        self.0.sched_calls.lock().unwrap().push((1, number.0));
+        let (cid, act) = *self.0.vs.lock().unwrap();
         Ok((
-            self.0.genesis.validators_schedule.clone().unwrap(),
-            self.0.genesis.first_block,
+            self.0.world.schedules[cid].clone(),
+            validator::BlockNumber(act),
         ))
     }
     async fn get_pending_validator_schedule(
         &self,
         _ctx: &ctx::Ctx,
-        _number: validator::BlockNumber,
+        number: validator::BlockNumber,
     ) -> ctx::Result<Option<(validator::Schedule, validator::BlockNumber)>> {
-        Ok(None)
+        self.0.sched_calls.lock().unwrap().push((2, number.0));
+        Ok(self
+            .0
+            .pending
+            .lock()
+            .unwrap()
+            .map(|(cid, act)| (self.0.world.schedules[cid].clone(), validator::BlockNumber(act))))
     }
     fn persisted(&self) -> sync::watch::Receiver<BlockStoreState> {
         self.0.persisted.subscribe()
@@ -392,7 +428,7 @@ impl Incarnation {
     async fn new(
         eng: &Eng,
     ) -> Result<(Self, zksync_consensus_engine::EngineManagerRunner), String> {
-        let ctx = ctx::root();
+        let ctx = ctx::test_root(&eng.0.clock);
         let (mgr, runner) =
             EngineManager::new(&ctx, Box::new(eng.clone()), time::Duration::seconds(1))
                 .await
@@ -409,12 +445,16 @@ impl Incarnation {
         ))
     }
 
-    fn spawn_runner(&mut self, runner: zksync_consensus_engine::EngineManagerRunner) {
+    fn spawn_runner(
+        &mut self,
+        clock: ctx::ManualClock,
+        runner: zksync_consensus_engine::EngineManagerRunner,
+    ) {
         let (stop_tx, stop_rx) = tokio::sync::oneshot::channel::<()>();
         let dead = self.dead.clone();
         self.stop = Some(stop_tx);
         self.handle = Some(tokio::spawn(async move {
-            let ctx = ctx::root();
+            let ctx = ctx::test_root(&clock);
             let _: anyhow::Result<()> = scope::run!(&ctx, |ctx, s| async move {
                 s.spawn_bg(async move {
                     if runner.run(ctx).await.is_err() {
@@ -496,6 +536,39 @@ fn poll_call(inc: &mut Incarnation, id: i64) -> Value {
     }
 }
 
+/// (committee id, activation) from a JSON pair; None for null / absent.
+fn pair_of(v: Option<&Value>) -> Option<(usize, u64)> {
+    let v = v?;
+    if v.is_null() {
+        return None;
+    }
+    Some((v[0].as_u64().unwrap() as usize, u64_of(&v[1])))
+}
+
+fn take_calls(eng: &Eng) -> Value {
+    let calls: Vec<_> = eng.0.sched_calls.lock().unwrap().drain(..).collect();
+    json!(calls
+        .iter()
+        .map(|(k, n)| json!([k, n.to_string()]))
+        .collect::<Vec<_>>())
+}
+
+/// The epoch-schedule map as `validator_schedule(e)` reports it for e < 32.
+fn map_json(w: &World, mgr: &EngineManager) -> Value {
+    let mut out = vec![];
+    for e in 0..32u64 {
+        if let Some(s) = mgr.validator_schedule(validator::EpochNumber(e)) {
+            out.push(json!([
+                e,
+                w.committee_id(&s.schedule),
+                s.activation_block.0.to_string(),
+                s.expiration_block.map(|b| b.0.to_string())
+            ]));
+        }
+    }
+    json!(out)
+}
+
 fn state_json(s: &BlockStoreState) -> Value {
     json!([s.first.0.to_string(), s.last.as_ref().map(|l| l.number().0.to_string())])
 }
@@ -507,12 +580,13 @@ async fn run_case(
 ) -> Value {
     let first_block = u64_of(&c["first_block"]);
     let cap = c["cap"].as_i64().unwrap_or(100) as i128;
-    let w = Arc::new(World::new(pool, first_block));
+    let dynamic = c.get("dynamic").and_then(|v| v.as_bool()).unwrap_or(false);
+    let w = Arc::new(World::new(pool, first_block, dynamic));
     // blocks of the case
     let mut blocks = vec![];
     let mut by_payload: HashMap<Vec<u8>, i64> = HashMap::new();
     for (i, spec) in c["blocks"].as_array().unwrap().iter().enumerate() {
-        let key = format!("{first_block}/{}", spec_tag(spec));
+        let key = format!("{first_block}/{dynamic}/{}", spec_tag(spec));
         let b = cache.entry(key).or_insert_with(|| w.build(spec)).clone();
         by_payload.insert(payload_of(&b), i as i64);
         blocks.push(b);
@@ -528,21 +602,27 @@ async fn run_case(
         permits: Mutex::new(-1),
         notify: tokio::sync::Notify::new(),
         get_calls: AtomicU64::new(0),
+        vs: Mutex::new(pair_of(c.get("vs")).unwrap_or((0, first_block))),
+        pending: Mutex::new(pair_of(c.get("pending"))),
+        sched_calls: Mutex::default(),
+        clock: ctx::ManualClock::new(),
     }));
     let mut inc = match Incarnation::new(&eng).await {
         Ok((mut inc, runner)) => {
-            inc.spawn_runner(runner);
+            inc.spawn_runner(eng.0.clock.clone(), runner);
             inc
         }
         Err(_) => return json!({"init": false, "ops": []}),
     };
     drain().await;
+    let start = json!({"calls": take_calls(&eng), "map": map_json(&w, &inc.mgr)});
     let mut out = vec![];
     let rctx = ctx::root();
     let trace = std::env::var("VH_TRACE").is_ok();
     for op in c["ops"].as_array().unwrap() {
         let log_before = eng.0.log.lock().unwrap().len();
         let mut extra: Vec<i128> = vec![];
+        let mut vres = json!([]);
         let res = match op["op"].as_str().unwrap() {
             "queue" => {
                 let id = op["id"].as_i64().unwrap();
@@ -578,7 +658,7 @@ async fn run_case(
                     if trace {
                         eprintln!("old incarnation down");
                     }
-                    inc.spawn_runner(runner);
+                    inc.spawn_runner(eng.0.clock.clone(), runner);
                     if trace {
                         eprintln!("new runner spawned");
                     }
@@ -590,6 +670,35 @@ async fn run_case(
                 for n in op["ns"].as_array().unwrap() {
                     extra.push(u64_of(n) as i128);
                 }
+                json!([])
+            }
+            "tick" => {
+                eng.0.clock.advance(time::Duration::seconds(1));
+                json!([])
+            }
+            "pending" => {
+                *eng.0.pending.lock().unwrap() = pair_of(op.get("p"));
+                json!([])
+            }
+            "vs" => {
+                *eng.0.vs.lock().unwrap() = pair_of(op.get("p")).unwrap();
+                json!([])
+            }
+            "vpayload" => {
+                let r = inc
+                    .mgr
+                    .verify_payload(
+                        &rctx,
+                        validator::BlockNumber(u64_of(&op["n"])),
+                        validator::EpochNumber(u64_of(&op["e"])),
+                        &validator::Payload(vec![]),
+                    )
+                    .await;
+                vres = match r {
+                    Ok(()) => json!([0]),
+                    Err(e) if format!("{e:#}").contains("does not belong to epoch") => json!([1]),
+                    Err(_) => json!([2]),
+                };
                 json!([])
             }
             other => panic!("unknown op {other}"),
@@ -657,11 +766,12 @@ async fn run_case(
             "res": res, "queued": state_json(&q), "persisted": state_json(&p),
             "head": head.0.to_string(), "alive": !inc.dead.load(Ordering::SeqCst),
             "pending": inc.calls.keys().collect::<Vec<_>>(),
+            "calls": take_calls(&eng), "map": map_json(&w, &inc.mgr), "vres": vres,
             "submits": submits, "reads": reads,
         }));
     }
     inc.shutdown().await;
-    json!({"init": true, "ops": out})
+    json!({"init": true, "start": start, "ops": out})
 }
 
 fn now_ms() -> u64 {
@@ -675,7 +785,7 @@ fn main() {
     if std::env::var("VH_LOUD_PANICS").is_err() {
         quiet_panics();
     }
-    let pool = keys::validator_pool(6);
+    let pool = keys::validator_pool(9);
     let mut cache: HashMap<String, validator::Block> = HashMap::new();
     let rt = tokio::runtime::Builder::new_current_thread()
         .enable_all()
